@@ -243,14 +243,12 @@ Proof.
   eapply nr_keeps; eauto.
 Qed.
 
-(* non-vacuity: forced inspection of a package reads its source files (store_source) and none of the compiled ones *)
+(* non-vacuity: forced inspection of a package reads its source file (store_source) and not the compiled one *)
 Example reads_exercised :
   let top := mkMod ["p"] ["sp"; "p"] "__init__" ".py" None in
   let a := mkMod ["p"; "a"] ["sp"; "p"] "a" ".pyc" None in
   let w := mkWorld [("p", FPkg top [a] None)] [(["p"], mkBeh (Some ["sp"]) true [] None); (["p"; "a"], mkBeh None true [] None)] [] [] in
-  let ph (b : bool) := mkPhase (if b then ELoad else EDump) w [["sp"]] [] true (Some (RNode "p" [])) [] in
-  let reads (s : st) := filter (fun e => match e with EvRead _ _ => true | _ => false end) (log s) in
-  reads (snd (run_phases true true true [ph true] (init_state [["orig"]]))) = [EvRead ["p"] ".py"] /\
-  reads (snd (run_phases true true true [ph false] (init_state [["orig"]]))) = [] /\
-  List.length (inspections (snd (run_phases true true true [ph false] (init_state [["orig"]])))) = 2.
-Proof. vm_compute. repeat split. Qed.
+  let ph := mkPhase ELoad w [["sp"]] [] true (Some (RNode "p" [])) [] in
+  let s' := snd (run_phases true true true [ph] (init_state [["orig"]])) in
+  filter (fun e => match e with EvRead _ _ => true | _ => false end) (log s') = [EvRead ["p"] ".py"] /\ List.length (inspections s') = 2.
+Proof. vm_compute. split; reflexivity. Qed.
